@@ -97,6 +97,33 @@ def check_interp(case):
     return fails, (method, len(x), tuple(round(v, 9) for v in g))
 
 
+def _long_case(case):
+    m, gk, P, R, dens, yk = case["len"], case["grid"], case["left"], case["right"], case["density"], case["y"]
+    x = A.long_grid(m, gk)
+    aff = None
+    if yk == "affine":
+        aff = (0.5, -2.0)
+        y = [aff[0] * v + aff[1] for v in x]
+    else:
+        y = A.long_values(m, yk)
+    new = [x[0] - 0.25 * (P - j) for j in range(P)]
+    for i in range(m - 1):
+        new.append(x[i])
+        for d in range(1, dens):
+            new.append(x[i] + (x[i + 1] - x[i]) * d / dens)
+    new.append(x[-1])
+    new += [x[-1] + 0.25 * (j + 1) for j in range(R)]
+    return {"x": x, "y": y, "new_x": new, "method": case["method"], "affine": aff}
+
+
+@kind("interp-long")
+def check_interp_long(case):
+    fails, sig = check_interp(_long_case(case))
+    for f in fails:
+        f["key"] = dict(f["key"], long=True)
+    return fails, (None if sig is None else (case["method"], case["len"], case["left"], case["right"], hash(sig[2]) & 0xffffff))
+
+
 @kind("weaver-interp")
 def check_weaver_interp(case):
     from traffic_weaver import Weaver
@@ -213,7 +240,33 @@ def harnesses(tier, seed):
                 judge(ctx, check_interp, {"x": x, "y": list(y), "new_x": ng, "method": method, "affine": None,
                                           "grid_type": ("float-array", "int-array", "int-list")[gi % 3]}, bulk=True)
 
-    hs = [{"name": "function", "body": body}, {"name": "weaver", "body": weaver_body}]
+    long_sizes = A.sizes(20 if quick else 40, 1100 if quick else 70000, minimum=4)
+    pad_sizes = [0, 1] + [v for v in A.sizes(0, 1100 if quick else 70000) if v >= 15]
+
+    def long_body(ctx):
+        """long series and long new grids: P new points left of the data, `density` points per interval (the samples
+        among them), R points beyond; sizes cross powers of two and every integer constant of the code"""
+        method = ctx.choose(METHODS, "method")
+        shape = ctx.choose(["series-long", "left-pad", "right-pad", "both-pads"], "shape")
+        yk = ctx.choose(["saw", "affine"], "y")
+        gk = ctx.choose(["uniform", "gaps"], "grid")
+        if shape == "series-long":
+            for m in long_sizes:
+                if method in ("cubic", "spline") and m > 3000:
+                    continue
+                judge(ctx, check_interp_long, {"len": m, "grid": gk, "left": 1, "right": 1, "density": 2 if m > 40 else 4, "y": yk, "method": method},
+                      bulk=True, nontrivial=True)
+        else:
+            for pad in pad_sizes:
+                P = pad if shape in ("left-pad", "both-pads") else 0
+                R = pad if shape in ("right-pad", "both-pads") else 0
+                for m in (4, 7, 40):
+                    judge(ctx, check_interp_long, {"len": m, "grid": gk, "left": P, "right": R, "density": 3, "y": yk, "method": method},
+                          bulk=True, nontrivial=True)
+
+    hs = [{"name": "function", "body": body}, {"name": "weaver", "body": weaver_body},
+          {"name": "long-series-and-long-grids", "body": long_body,
+           "bound_text": "series lengths %s..%d, pads %s (2^k+1 and around every integer constant of the code)" % (long_sizes[0], long_sizes[-1], pad_sizes)}]
     if not quick:
         hs.append({"name": "function-full-value-lattice", "body": full_values_body})
     return hs
